@@ -315,7 +315,7 @@ Proof.
     rewrite Eb in *. cbn [app] in Hrepr. inversion Hrepr as [[E1 E2]].
     eexists. split; [reflexivity|]. cbn [mr_data mr_size mr_unstuff mr_k mr_runs mr_bitbuf].
     split.
-    { split; [exact Hr0|]. Show. unfold zlen in *; cbn [length] in Hsize; lia. }
+    { split; [exact Hr0|]. cbn [mr_data mr_size]. unfold zlen in *; cbn [length] in Hsize; lia. }
     split; [|split; reflexivity].
     unfold o_prev. cbn [mr_data mr_size mr_unstuff mr_k mr_runs mr_bitbuf]. f_equal.
     apply unstuff_prev_eq. destruct (d =? 255); reflexivity.
@@ -397,7 +397,7 @@ Proof.
     rewrite Hrd. change (1 =? 1) with true. cbv iota.
     cbn [mr_data mr_size mr_unstuff mr_k mr_runs mr_bitbuf].
     split; [exact Hok1|]. rewrite K1, Q1. fold (kup (mr_k s)).
-    split; [f_equal; f_equal; rewrite Er; unfold thr; ring|].
+    split; [f_equal; f_equal; rewrite Er; rewrite (Z.shiftl_mul_pow2 _ 1) by lia; change (2 ^ 1) with 2; unfold thr; ring|].
     split; [exact Hv|].
     unfold o_repr, o_prev. cbn [mr_data mr_size mr_unstuff mr_k mr_runs mr_bitbuf]. exact Hr1.
   - destruct Hv as [Hj [Er Hv]]. rewrite <- app_assoc in Hrepr. cbn [app] in Hrepr.
@@ -437,4 +437,213 @@ Proof.
     specialize (Hrr (Z.to_nat (mel_e (mr_k s))) s1 0).
     destruct (melr_read_run (Z.to_nat (mel_e (mr_k s))) s1 0) as [run s2]. cbn [snd] in Hrr.
     cbn [mr_runs]. rewrite Hrr, Q1. eauto.
+Qed.
+
+(* ---------- the run queue: what getRun will deliver ---------- *)
+Definition Inv (s : melr) (bl : list Z) : Prop :=
+  (exists n tail, (n <= length bl)%nat /\ mr_runs s = firstn n bl /\ o_ok s /\
+                  valid_runs (skipn n bl) (mr_k s) /\
+                  o_repr s = bits_of_runs (skipn n bl) (mr_k s) ++ tail)
+  \/ (exists g, mr_runs s = bl ++ g).
+
+Lemma skipn_cons_inv : forall (l : list Z) n r rs, skipn n l = r :: rs ->
+  firstn (S n) l = firstn n l ++ [r] /\ skipn (S n) l = rs /\ (S n <= length l)%nat.
+Proof.
+  induction l as [|a l IH]; intros n r rs H.
+  - destruct n; discriminate.
+  - destruct n as [|n].
+    + cbn [skipn] in H. inversion H; subst. cbn [firstn skipn app length]. repeat split; lia.
+    + cbn [skipn] in H. destruct (IH n r rs H) as [A [B C]].
+      cbn [firstn skipn app length]. rewrite <- A. repeat split; [exact B|lia].
+Qed.
+
+Lemma inv_decode_one : forall s bl, Inv s bl -> Inv (melr_decode_one s) bl.
+Proof.
+  intros s bl [[n [tail [Hn [Hq [Hok [Hv Hr]]]]]]|[g Hq]].
+  - destruct (skipn n bl) as [|r rs] eqn:Esk.
+    + right. destruct (decode_one_appends s) as [g Hg]. exists [g]. rewrite Hg, Hq.
+      f_equal. apply firstn_all2.
+      assert (length (skipn n bl) = 0%nat) by (rewrite Esk; reflexivity). rewrite skipn_length in H. lia.
+    + left. destruct (skipn_cons_inv bl n r rs Esk) as [A [B C]].
+      destruct (decode_one_spec s r rs tail Hok Hv Hr) as [Hok' [Hq' [Hv' Hr']]].
+      exists (S n), tail. rewrite A, B. split; [exact C|]. split; [rewrite Hq', Hq; reflexivity|].
+      split; [exact Hok'|]. split; assumption.
+  - right. destruct (decode_one_appends s) as [g' Hg]. exists (g ++ [g']). rewrite Hg, Hq, app_assoc. reflexivity.
+Qed.
+
+Lemma inv_decode_more : forall fuel s bl, Inv s bl -> Inv (melr_decode_more fuel s) bl.
+Proof.
+  induction fuel as [|f IH]; intros s bl H; cbn [melr_decode_more]; [exact H|].
+  destruct (zlen (mr_runs s) <? 8); [apply IH, inv_decode_one; exact H|exact H].
+Qed.
+
+Lemma decode_more_ext : forall fuel s, exists h, mr_runs (melr_decode_more fuel s) = mr_runs s ++ h.
+Proof.
+  induction fuel as [|f IH]; intro s; cbn [melr_decode_more]; [exists []; rewrite app_nil_r; reflexivity|].
+  destruct (zlen (mr_runs s) <? 8); [|exists []; rewrite app_nil_r; reflexivity].
+  destruct (IH (melr_decode_one s)) as [h Hh]. destruct (decode_one_appends s) as [g Hg].
+  exists ([g] ++ h). rewrite Hh, Hg, <- app_assoc. reflexivity.
+Qed.
+
+Lemma get_run_spec : forall s r bl, Inv s (r :: bl) ->
+  fst (melr_get_run s) = r /\ Inv (snd (melr_get_run s)) bl.
+Proof.
+  intros s r bl HI. unfold melr_get_run.
+  set (s1 := match mr_runs s with [] => melr_decode_more 8 s | _ :: _ => s end).
+  assert (HI1 : Inv s1 (r :: bl)) by (unfold s1; destruct (mr_runs s); [apply inv_decode_more; exact HI|exact HI]).
+  assert (Hne : mr_runs s1 <> []).
+  { unfold s1. destruct (mr_runs s) as [|a q] eqn:Eq; [|rewrite Eq; discriminate].
+    change (melr_decode_more 8 s) with (if zlen (mr_runs s) <? 8 then melr_decode_more 7 (melr_decode_one s) else s).
+    rewrite Eq. change (zlen (@nil Z) <? 8) with true. cbv iota.
+    destruct (decode_more_ext 7 (melr_decode_one s)) as [h Hh]. destruct (decode_one_appends s) as [g Hg].
+    rewrite Hh, Hg, Eq. discriminate. }
+  destruct HI1 as [[n [tail [Hn [Hq [Hok [Hv Hr]]]]]]|[g Hq]].
+  - destruct n as [|n]; [cbn [firstn] in Hq; contradiction|].
+    cbn [firstn] in Hq. rewrite Hq. cbn [fst snd]. split; [reflexivity|].
+    left. exists n, tail. cbn [length] in Hn. split; [lia|].
+    cbn [mr_runs mr_k]. split; [reflexivity|]. split; [exact Hok|]. cbn [skipn] in Hv, Hr.
+    split; [exact Hv|]. unfold o_repr, o_prev in *. cbn [mr_data mr_size mr_unstuff mr_bitbuf]. exact Hr.
+  - cbn [app] in Hq. rewrite Hq. cbn [fst snd]. split; [reflexivity|].
+    right. exists g. reflexivity.
+Qed.
+
+(* ---------- the consumer ---------- *)
+Lemma ev_zeros : forall m R s n, 0 <= R - 2 * Z.of_nat m ->
+  ojph_mel_events (m + n) (R, s) = repeat false m ++ ojph_mel_events n (R - 2 * Z.of_nat m, s).
+Proof.
+  induction m as [|m IH]; intros R s n H.
+  - cbn [Nat.add repeat app]. replace (R - 2 * Z.of_nat 0) with R by lia. reflexivity.
+  - cbn [Nat.add ojph_mel_events repeat app]. unfold ojph_mel_event.
+    destruct (Z.eqb_spec (R - 2) (-1)) as [?|_]; [lia|].
+    destruct (Z.ltb_spec (R - 2) 0) as [?|_]; [lia|].
+    rewrite IH by lia.
+    replace (R - 2 - 2 * Z.of_nat m) with (R - 2 * Z.of_nat (S m)) by lia. reflexivity.
+Qed.
+
+Lemma runs_zeros_lt : forall m k run rest, 0 <= run -> run + Z.of_nat m < thr k ->
+  runs_of (repeat false m ++ rest) k run = runs_of rest k (run + Z.of_nat m).
+Proof.
+  induction m as [|m IH]; intros k run rest Hr Hlt.
+  - cbn [repeat app]. rewrite Z.add_0_r. reflexivity.
+  - cbn [repeat app runs_of]. destruct (Z.geb_spec (run + 1) (thr k)) as [?|_]; [lia|].
+    rewrite IH by lia. f_equal. lia.
+Qed.
+
+Lemma runs_zeros_full : forall m k run rest, 0 <= run -> run + Z.of_nat (S m) = thr k ->
+  runs_of (repeat false (S m) ++ rest) k run = 2 * (thr k - 1) :: runs_of rest (kup k) 0.
+Proof.
+  intros m k run rest Hr He.
+  replace (S m) with (m + 1)%nat by lia. rewrite repeat_app, <- app_assoc.
+  rewrite runs_zeros_lt by lia. cbn [repeat app runs_of].
+  destruct (Z.geb_spec (run + Z.of_nat m + 1) (thr k)) as [_|?]; [reflexivity|lia].
+Qed.
+
+Lemma runs_of_nonempty : forall evs k run, 0 <= run -> evs <> [] -> exists R bl, runs_of evs k run = R :: bl.
+Proof.
+  induction evs as [|[|] evs IH]; intros k run Hr Hne; [contradiction| |].
+  - cbn [runs_of]. eauto.
+  - cbn [runs_of]. destruct (run + 1 >=? thr k); [eauto|].
+    destruct evs as [|e evs']; [|apply IH; [lia|discriminate]].
+    cbn [runs_of]. destruct (Z.gtb_spec (run + 1) 0) as [_|?]; [eauto|lia].
+Qed.
+
+Lemma repeat_snoc : forall (A : Type) (x : A) n, repeat x n ++ [x] = repeat x (S n).
+Proof. intros A x n. induction n as [|n IH]; [reflexivity|]. cbn [repeat app]. rewrite IH. reflexivity. Qed.
+
+(* after the event that ends a block the consumer pops the next run and goes on *)
+Lemma consume_blocks : forall len evs, (length evs <= len)%nat -> forall k R s bl,
+  0 <= k <= 12 -> runs_of evs k 0 = R :: bl -> Inv s bl ->
+  ojph_mel_events (length evs) (R, s) = evs.
+Proof.
+  induction len as [|len IH]; intros evs Hlen k R s bl Hkr Hruns HI.
+  - destruct evs; [reflexivity|cbn [length] in Hlen; lia].
+  - pose proof (thr_pos k Hkr) as [Htp Et].
+    set (T := Z.to_nat (thr k)). assert (HT : Z.of_nat T = thr k) by (unfold T; lia).
+    (* what happens once the block-ending event has popped the next run *)
+    assert (Hnext : forall rest k', 0 <= k' <= 12 -> (length rest < S len)%nat -> bl = runs_of rest k' 0 ->
+              ojph_mel_events (length rest) (melr_get_run s) = rest).
+    { intros rest k' Hk' Hl Hbl. destruct rest as [|e rest']; [reflexivity|].
+      destruct (runs_of_nonempty (e :: rest') k' 0 ltac:(lia) ltac:(discriminate)) as [R2 [bl2 E2]].
+      rewrite E2 in Hbl. subst bl. destruct (get_run_spec s R2 bl2 HI) as [Hf Hs].
+      destruct (melr_get_run s) as [R2' s'] eqn:Eg. cbn [fst snd] in Hf, Hs. subst R2'.
+      apply (IH (e :: rest') ltac:(lia) k' R2 s' bl2 Hk' E2 Hs). }
+    destruct (split_lead T evs) as [[rest E]|[[j [rest [Hj E]]]|[j [Hj E]]]]; subst evs.
+    + destruct T as [|T']; [lia|].
+      rewrite (runs_zeros_full T' k 0 rest ltac:(lia) ltac:(lia)) in Hruns.
+      set (R0 := 2 * (thr k - 1)) in Hruns. injection Hruns as ER Ebl. subst R. unfold R0.
+      rewrite app_length, repeat_length.
+      replace (S T' + length rest)%nat with (T' + (1 + length rest))%nat by lia.
+      rewrite ev_zeros by lia.
+      replace (2 * (thr k - 1) - 2 * Z.of_nat T') with 0 by lia.
+      cbn [Nat.add ojph_mel_events]. unfold ojph_mel_event at 1.
+      change (0 - 2 =? -1) with false. change (0 - 2 <? 0) with true. cbv iota.
+      rewrite (Hnext rest (kup k) (kup_range k Hkr)); [|rewrite app_length, repeat_length in Hlen; lia|symmetry; exact Ebl].
+      change (false :: rest) with ([false] ++ rest). rewrite app_assoc, repeat_snoc. reflexivity.
+    + rewrite (runs_zeros_lt j k 0 (true :: rest) ltac:(lia) ltac:(lia)) in Hruns.
+      cbn [runs_of] in Hruns. rewrite Z.add_0_l in Hruns.
+      set (R0 := 2 * Z.of_nat j + 1) in Hruns. injection Hruns as ER Ebl. subst R. unfold R0.
+      rewrite app_length, repeat_length. cbn [length].
+      replace (j + S (length rest))%nat with (j + (1 + length rest))%nat by lia.
+      rewrite ev_zeros by lia.
+      replace (2 * Z.of_nat j + 1 - 2 * Z.of_nat j) with 1 by lia.
+      cbn [Nat.add ojph_mel_events]. unfold ojph_mel_event at 1.
+      change (1 - 2 =? -1) with true. change (1 - 2 <? 0) with true. cbv iota.
+      rewrite (Hnext rest (kdn k) (kdn_range k Hkr)); [reflexivity| |symmetry; exact Ebl].
+      rewrite app_length, repeat_length in Hlen. cbn [length] in Hlen. lia.
+    + destruct j as [|j']; [cbn [repeat runs_of] in Hruns; discriminate|].
+      rewrite <- (app_nil_r (repeat false (S j'))) in Hruns.
+      rewrite (runs_zeros_lt (S j') k 0 [] ltac:(lia) ltac:(lia)) in Hruns.
+      cbn [runs_of] in Hruns. rewrite Z.add_0_l in Hruns.
+      destruct (Z.gtb_spec (Z.of_nat (S j')) 0) as [_|?]; [|lia].
+      set (R0 := 2 * (thr k - 1)) in Hruns. injection Hruns as ER Ebl. subst R. unfold R0.
+      rewrite repeat_length.
+      replace (S j') with (S j' + 0)%nat at 1 by lia.
+      rewrite ev_zeros by lia. cbn [ojph_mel_events]. apply app_nil_r.
+Qed.
+
+(* ---------- the data the reader sees ---------- *)
+Lemma eff_app : forall l1 l2 size, zlen l1 < size -> eff (l1 ++ l2) size = l1 ++ eff l2 (size - zlen l1).
+Proof.
+  induction l1 as [|a l1 IH]; intros l2 size H.
+  - cbn [app]. unfold zlen; cbn [length]. rewrite Z.sub_0_r. reflexivity.
+  - cbn [app eff]. unfold zlen in *. cbn [length] in H.
+    destruct (Z.leb_spec size 0); [lia|]. destruct (Z.eqb_spec size 1); [lia|].
+    rewrite IH by lia. cbn [length].
+    replace (size - 1 - Z.of_nat (length l1)) with (size - Z.of_nat (S (length l1))) by lia. reflexivity.
+Qed.
+
+Lemma unstuff_app : forall l1 l2 p, unstuff p (l1 ++ l2) = unstuff p l1 ++ unstuff (last l1 p) l2.
+Proof.
+  induction l1 as [|a l1 IH]; intros l2 p; [reflexivity|].
+  cbn [app unstuff]. rewrite IH, <- app_assoc. f_equal. f_equal.
+  destruct l1 as [|z l1']; [reflexivity|].
+  change (last (a :: z :: l1') p) with (last (z :: l1') p). rewrite (last_cons_default l1' z p a). reflexivity.
+Qed.
+
+(* ojph_mel_roundtrip: for ANY event sequence, ANY state of the VLC writer at termination
+   (its open byte vt < 256, used-bit count, buffer length flag — fused or not) and ANY bytes that
+   follow the MEL segment in the cleanup suffix (at least the two bytes that carry the Scup locator
+   and the first VLC bits), the live reader, consumed through the run counter exactly as
+   ojphCleanupState does, delivers the events. *)
+Theorem ojph_mel_roundtrip : forall evs vt vu more rest,
+  0 <= vt < 256 -> Forall (fun b => 0 <= b < 256) rest -> (2 <= length rest)%nat ->
+  ojph_mel_decode_bytes (length evs)
+    (fst (ojph_mel_terminate (melw_encode_all evs) vt vu more) ++ rest) = evs.
+Proof.
+  intros evs vt vu more rest Hvt Hrest Hlen.
+  destruct evs as [|e evs']; [reflexivity|]. set (evs := e :: evs') in *.
+  destruct (ojph_writer_bits evs vt vu more Hvt) as [Hb [tail [Hu _]]]. cbv zeta in Hb, Hu.
+  set (mel := fst (ojph_mel_terminate (melw_encode_all evs) vt vu more)) in *.
+  destruct (runs_of_nonempty evs 0 0 ltac:(lia) ltac:(discriminate)) as [R [bl ER]].
+  unfold ojph_mel_decode_bytes, ojph_mel_start.
+  assert (HI : Inv (melr_init (mel ++ rest)) (R :: bl)).
+  { left. exists 0%nat. eexists. split; [cbn [length]; lia|]. split; [reflexivity|].
+    split; [split; cbn [melr_init mr_data mr_size]; [apply Forall_app; split; assumption|lia]|].
+    cbn [skipn melr_init mr_k]. split; [rewrite <- ER; apply runs_of_valid; [lia|]; pose proof (thr_pos 0 ltac:(lia)); lia|].
+    unfold o_repr, o_prev. cbn [melr_init mr_bitbuf mr_unstuff mr_data mr_size app].
+    rewrite eff_app by (unfold zlen; rewrite app_length; lia).
+    rewrite unstuff_app, Hu, ER, <- app_assoc. reflexivity. }
+  destruct (get_run_spec _ R bl HI) as [Hf Hs].
+  destruct (melr_get_run (melr_init (mel ++ rest))) as [R' s'] eqn:Eg. cbn [fst snd] in Hf, Hs. subst R'.
+  apply (consume_blocks (length evs) evs (le_n _) 0 R s' bl ltac:(lia) ER Hs).
 Qed.
